@@ -573,6 +573,8 @@ class ModelEval(Evaluator):
                 return list(r) if name in ("enumerate", "zip", "reversed") else r
             except (TypeError, ValueError) as e:
                 raise Raised(type(e).__name__, node, str(e))
+        if name in ("float", "int") and len(args) == 1 and isinstance(args[0], Model) and getattr(args[0], "symbolic_number", False) and (name == "float" or getattr(args[0], "integral", False)):
+            return args[0]           # float(x) of an exact / symbolic number token: the same number
         if name == "next" and args and isinstance(args[0], list):
             # generator expressions are evaluated eagerly into lists: next(gen, default) takes the first element
             if args[0]:
